@@ -4,11 +4,12 @@ from evalutil import *
 
 ID = "C05"
 LEVEL = "proof"
-MODULES = ["H3Proofs.Props.C05", "H3Proofs.Props.C05Neighbor", "H3Proofs.Props.C05Bfs", "H3Proofs.Props.C05Symm", "H3Proofs.Props.C05Array", "H3Proofs.Props.C05Mode", "H3Proofs.Props.C05Valid", "H3Proofs.Props.C05Valid2", "H3Proofs.Props.C05Pent", "H3Proofs.Props.C05Res1a", "H3Proofs.Props.C05Res1b", "H3Proofs.Props.C05Ring", "H3Proofs.Props.C05All", "H3Proofs.Props.C05Gen"]
+MODULES = ["H3Proofs.Props.C05", "H3Proofs.Props.C05Neighbor", "H3Proofs.Props.C05Bfs", "H3Proofs.Props.C05Symm", "H3Proofs.Props.C05Array", "H3Proofs.Props.C05Mode", "H3Proofs.Props.C05Valid", "H3Proofs.Props.C05Valid2", "H3Proofs.Props.C05Pent", "H3Proofs.Props.C05Res1a", "H3Proofs.Props.C05Res1b", "H3Proofs.Props.C05Ring", "H3Proofs.Props.C05All", "H3Proofs.Props.C05Gen", "H3Proofs.Props.C13Gen"]
 THEOREMS = "auto"
 ASSUMPTIONS = ["hand-written model of h3NeighborRotations, _gridDiskDistancesInternal (array-faithful), the unsafe "
                "ring walks, gridRingUnsafe and areNeighborCells, tied to the code by exact correspondence (slot "
                "layout and ring order included)"]
+ASSUMPTIONS.append('_h3RotatePent60ccw / _h3RotatePent60cw (with _h3LeadingNonZeroDigit, _h3Rotate60ccw/cw, _rotate60ccw/cw) and isPentagon, the bit-level helpers of h3NeighborRotations, are translated from the C text on every run and PROVED equal to the model functions for all 2^64 values (C05Gen, C01Lnz, C01Rot, C04Gen)')
 NOT_PROVED = ["symmetry / distinctness / count (six) of neighbours for steps that cross a base-cell boundary or run inside a pentagon base cell at resolutions >= 2 (empirical rotation tables): unbounded theorems exist for steps that stay inside a hexagon base cell, at every resolution (C05Symm), for the twelve pentagons themselves at every resolution (C05Pent: exactly five distinct neighbours, K step = E_PENTAGON), and complete resolutions 0 and 1 are decided in the kernel (C05Pent.res0_*, C05Res1a/b: family results); elsewhere correspondence + evaluator",
               "termination-with-success of the safe disk (that its probing never reports E_FAILED): the BFS theorem is partial correctness (whenever gridDiskDistancesSafe returns, its buffers are the BFS disk)",
               "the unsafe ring walks (gridDiskDistancesUnsafe, gridRingUnsafe) = the disk in ring order whenever they succeed: correspondence + evaluator only (finding F7 lives here)"]
